@@ -216,23 +216,23 @@ NOT_YET = "not claimed"
 # sentences appended to the level text: sub-checks added by the strengthening pass (DESIGN.md section 11, wave 6)
 ADDED = {
     "C01": "Enumerated additions: every equally well-formed spelling of the part headers and of the request Content-Type (case, folding, order, unquoted tokens, tabs), boundary lengths 1..70 x transport padding x cuts within 3 bytes of every delimiter, bodies of 80 KiB..2 MiB (reads over 64 KiB, uploads past the in-memory limit), form read after body, absent Content-Length, optional ASGI message keys omitted, lazily drained decoder.",
-    "C02": "Enumerated additions: request header order / look-alike header names / other ASGI extensions, mtime phase within the second x symlinked path x process time zone, legal spellings of range sets (tabs, zero padding, 30-digit positions, 12 specs), If-Range near-misses (tag + suffix, lists, case, 8-bit); a rejection of a range set in which every spec selects bytes is a failure.",
+    "C02": "Enumerated additions: request header order / look-alike header names / other ASGI extensions, mtime phase within the second x symlinked path x process time zone, legal spellings of range sets (tabs, zero padding, 30-digit positions, 12 specs), If-Range near-misses (tag + suffix, lists, case, 8-bit); a rejection of a range set in which every spec selects bytes is a failure. Wave 12: sparse files beyond 2 GiB served zero-copy (the server model notes each (offset, count) slice; slices must be exactly the expected ranges).",
     "C03": "Enumerated additions: all 3-spec headers over 36 specs and 4-spec headers over 12, positions of 10..4000 digits and sizes up to 10^30, size-relative anchors with leading zeros, 0..3 blanks or tabs around every comma, 34 non-bytes unit spellings, lists of 12..5000 specs and chains of 5..300.",
-    "C04": "Enumerated additions: optional environ / scope / message keys omitted, every accessor sequence of length <= 3 around close(), constructor arguments of every response class (own framing headers, JSON keywords, SSE charsets), 323..326 parts and bodies past the spool limit, mount / host grids with non-ASCII and shadowing prefixes, static trees with hostile directory names, one response object or one Files/Pages object over a request history with file modifications, If-None-Match on several lines.",
-    "C05": "Enumerated additions: list / iterator / re-iterable producers, control characters in redirect targets, files removed / truncated / grown after construction, data-less events, hostile names on disk, other ASGI extensions without zero-copy, all response constructions x status sweep, idle event streams, hostile cookie attribute values (must raise at the call or be emitted clean). Wave 11: one response object called for two requests in sequence (every fault point in the first, a connected client in the second).",
-    "C06": "Enumerated additions: producers without close/aclose, cleanup code that takes (virtual or real) time, server-side task cancellation, clients slower than the ping interval, endless producers (runaway detection), close() latency at three ping intervals, list / tuple / iterator producers on WSGI. Wave 11: ASGI producers inside run_in_threadpool(blocking call) at the disconnect / cancellation, on a thread-aware virtual-time loop.",
+    "C04": "Enumerated additions: optional environ / scope / message keys omitted, every accessor sequence of length <= 3 around close(), constructor arguments of every response class (own framing headers, JSON keywords, SSE charsets), 323..326 parts and bodies past the spool limit, mount / host grids with non-ASCII and shadowing prefixes, static trees with hostile directory names, one response object or one Files/Pages object over a request history with file modifications, If-None-Match on several lines. Wave 12: media_type spellings with their own parameters x charset argument.",
+    "C05": "Enumerated additions: list / iterator / re-iterable producers, control characters in redirect targets, files removed / truncated / grown after construction, data-less events, hostile names on disk, other ASGI extensions without zero-copy, all response constructions x status sweep, idle event streams, hostile cookie attribute values (must raise at the call or be emitted clean). Wave 11: one response object called for two requests in sequence (every fault point in the first, a connected client in the second). Wave 12: wsgi.file_wrapper on offer for every response class; names mixing non-ASCII text with ASCII control characters.",
+    "C06": "Enumerated additions: producers without close/aclose, cleanup code that takes (virtual or real) time, server-side task cancellation, clients slower than the ping interval, endless producers (runaway detection), close() latency at three ping intervals, list / tuple / iterator producers on WSGI. Wave 11: ASGI producers inside run_in_threadpool(blocking call) at the disconnect / cancellation, on a thread-aware virtual-time loop. Wave 12: fault-free runs whose sends outlast the ping interval (a cancellation nobody injected is the call's outcome).",
     "C07": "Enumerated additions: 58 hostile but legal file / directory names with near-miss spellings and unix sockets, every entry x 5 validator sets (a 304 needs a servable file), histories on one app object over a changing tree, handle_404, six ways of giving the directory, minimal environ/scope; any redirect must come from a slash-less URL of a directory and stay on the same host. Wave 11: symbolic links of every kind in the served tree x dot segments behind them (lexical vs physical resolution), audit of the spelling handed to open().",
     "C08": "Enumerated additions: every code point below U+0100 (+52 others) alone / appended / prepended / inserted per type, placeholder names, 15 hand-written tables x 90 paths, method / root path / query / websocket scope / omitted PATH_INFO, non-UTF-8 PATH_INFO, several requests on one router (handlers keeping or editing their params), routers nested in routers and behind mounts.",
     "C09": "Enumerated additions: 12 look-alike families after and inside prefixes (case, slashes, dot segments, escapes, invisible characters, Latin-1 misreadings, NFKC), non-UTF-8 paths, ordered request triples on one mount object, websocket scopes, every nesting level observed through recorder apps, WSGI values compared in their native form, 50 junk Host spellings x pattern kinds, forwarded-host headers around Host. Wave 11: host patterns with back-references, named / conditional groups, inline flags, look-around (per-entry re.fullmatch as the language).",
     "C10": "Enumerated additions: 12 envelopes (methods x Content-Length / chunked / none, optional ASGI keys), falsy cached values, bodies of 64 KiB..200 KB and explicit chunk sizes, a disconnect replacing each message for every history of length <= 2, reads around close(), every pair / triple of concurrent single-access tasks (json / form results identical objects).",
     "C11": "Enumerated additions: 23 operations x 36 further server scripts (empty frames, both-keys frames, disconnect codes, receive calls cancelled while parked, server send failing or parking on the n-th event), two persistent iterators across close, websocket_session views cancelled or failing, denial responses with other extensions / None / streaming while the client disconnects.",
-    "C12": "Enumerated additions: seven multipart bodies cut and truncated at every offset (input runs dry / client disconnects), pairs of headers only evaluated together (Range x If-Range dates, If-None-Match x If-Modified-Since), every dictionary path and ~200 near-misses per convertor, symlink loops and dangling links, a composed Hosts -> Subpaths -> Files/Pages/Router app, 55 codec names, environ without optional keys.",
-    "C13": "Enumerated additions: every way of handing a pair to the mapping (12 update forms) x prior state of the key x 18 hostile strings, 25 names responses fill in themselves, texts of 257..65537 characters, every response kind incl. file 206/416, cookie names like attributes / prefixes and compatibility forms of ';' ',' '=', redirect targets over code points 0..0x17F in 7 URL contexts. Wave 11: hostile text behind cookie-prefix / attribute-like name stems.",
+    "C12": "Enumerated additions: seven multipart bodies cut and truncated at every offset (input runs dry / client disconnects), pairs of headers only evaluated together (Range x If-Range dates, If-None-Match x If-Modified-Since), every dictionary path and ~200 near-misses per convertor, symlink loops and dangling links, a composed Hosts -> Subpaths -> Files/Pages/Router app, 55 codec names, environ without optional keys. Wave 12: every codec module the interpreter ships as charset x ASCII bodies.",
+    "C13": "Enumerated additions: every way of handing a pair to the mapping (12 update forms) x prior state of the key x 18 hostile strings, 25 names responses fill in themselves, texts of 257..65537 characters, every response kind incl. file 206/416, cookie names like attributes / prefixes and compatibility forms of ';' ',' '=', redirect targets over code points 0..0x17F in 7 URL contexts. Wave 11: hostile text behind cookie-prefix / attribute-like name stems. Wave 12: no raw comma in the name=value part of an emitted cookie line; every non-token code point around token characters; the mapping grids once more under python -O.",
     "C14": "Enumerated additions: one app instance over the whole history, HEAD, delete / re-create / shrink / truncate / access-only operations, sub-directories and pretty URLs, cacheability options, eight further validator forms (41 members, tabs, empty members, both validators in either order), DST zones, two equal-mtime files; a 200 answering a conditional request must carry current validators. Wave 11: package= / relative / PathLike directory modes on one long-lived app; weak-validator search over ~6*10^5 structured (mtime, size) versions with the verdict from the real history of each colliding pair.",
     "C15": "Enumerated additions: ten fixed forms x the limit grid x chunkings x sync/async, no limit configured (up to 24 MB of field data), 1..100-byte chunks (bound relative to the chunk), 12 fillers behind CR / LF / letter leads, parts before and after the large one, sink lag through both Request.form accessors, padded delimiter look-alikes (known finding).",
     "C16": "Enumerated additions: absolute Expires targets showing every hour / day / weekday / month, DST switch seconds under 11 zones, max_age up to 2^40, set / delete / wait / send-again histories on one response judged per cookie identity, every token character in names, attribute-like and prefixed names, values up to 16 KiB, up to 120 cookies, all pairs of code points (thorough), every response class and status.",
     "C17": "Enumerated additions: 11 key/value alphabets with fresh-but-equal key objects, None / falsy / unhashable values, patterns with three or more non-adjacent values, constructor sources mutated afterwards (aliasing), every code point below U+0180 in query mappings, 1001..2000 pairs, raw query strings round-tripped through their own text.",
-    "C18": "Enumerated additions: optional scope / environ keys omitted, forwarded-host/-proto/-port headers around Host, server port None, root paths ending in '/', non-UTF-8 and control-character paths, one reading of url.path per configuration, 14 bases x single / pair / triple / chained replace values incl. port 0 and scheme '', replace on request-built URLs, query helpers with fragments and differently spelled keys, passwords equal to other components. Wave 11: empty user names with a password (':secret@host').",
+    "C18": "Enumerated additions: optional scope / environ keys omitted, forwarded-host/-proto/-port headers around Host, server port None, root paths ending in '/', non-UTF-8 and control-character paths, one reading of url.path per configuration, 14 bases x single / pair / triple / chained replace values incl. port 0 and scheme '', replace on request-built URLs, query helpers with fragments and differently spelled keys, passwords equal to other components. Wave 11: empty user names with a password (':secret@host'). Wave 12: request paths that begin with empty segments ('//a').",
     "C19": "Enumerated additions: clients slower than the ping interval, every source kind the constructors are typed for, 2..12 concurrent streams against the shared relay pool, special event names / ids followed by pings, normalisation-sensitive text in 9 charsets, 5000 lines / 200 000-character lines, the same dict object yielded again (caller's dict unchanged). Wave 11: retry over 0..2^70.",
     "C20": "Enumerated additions: header spellings and repeats (SET-COOKIE, 3-fold, values contained in earlier ones), bodies around 64 KiB and 1 MiB, omitted ASGI keys, HEAD / OPTIONS / PROPFIND, every edit operation x name case x present / absent / repeated field x layer kind judged against a list-of-pairs model, layers around routers / mounts / static apps, failing views and streams behind stacks, the zero-copy-send extension on offer. Wave 11: 12 shapes of lazy / eager non-generator iterables returned by inner WSGI applications, foreign re-packaging layers.",
 }
@@ -249,7 +249,7 @@ def main() -> None:
                 "evidence_file": f"/verif/evidence/{pid}.json",
                 "replay_cmd_template": f"/venv/bin/python /verif/vrun.py {pid} --replay {{path}}",
                 "engine": "vrun",
-                "level_claimed": {"category": cat, "text": text + (" " + ADDED[pid] if pid in ADDED else ""), "design_ref": f"DESIGN.md sections 3 and 11 (waves 6 and 11), {pid}"},
+                "level_claimed": {"category": cat, "text": text + (" " + ADDED[pid] if pid in ADDED else ""), "design_ref": f"DESIGN.md sections 3 and 11 (waves 6, 11 and 12), {pid}"},
                 "level_note": note,
                 "technique": tech,
             }
